@@ -157,10 +157,20 @@ def _rms_equal(a, b):
         return all(_rms_equal(a[k], b.get(k)) for k in a)
     if isinstance(a, (tuple, list)):
         return len(a) == len(b) and all(_rms_equal(x, y) for x, y in zip(a, b))
-    try:
-        return bool(torch.equal(torch.as_tensor(a.mean), torch.as_tensor(b.mean)) and torch.equal(torch.as_tensor(a.var), torch.as_tensor(b.var)))
-    except Exception:
-        return True
+    # every attribute of the running statistics: mean, var, the sample COUNT (it weights the next update) and epsilon
+    va, vb = vars(a), vars(b)
+    if set(va) != set(vb):
+        return False
+    for k, x in va.items():
+        y = vb[k]
+        if isinstance(x, torch.Tensor) or isinstance(y, torch.Tensor):
+            x, y = torch.as_tensor(x), torch.as_tensor(y)
+            if x.shape != y.shape or not torch.equal(x.to(torch.float64).cpu(), y.to(torch.float64).cpu()):
+                return False
+        elif isinstance(x, (int, float, str, bool, tuple, list, type(None))):
+            if x != y:
+                return False
+    return True
 
 
 @st.composite
